@@ -9,7 +9,9 @@ import (
 func TestWorker(t *testing.T) {
 	sim.WorkerMain(t, map[string]sim.Harness{
 		"C06": C06,
+		"C20": C20,
 	}, map[string]sim.Options{
 		"C06": {Bubble: true, PanicIsViolation: true},
+		"C20": {Bubble: true, PanicIsViolation: true},
 	})
 }
